@@ -5,10 +5,13 @@
    ParseOneContact), ParseOnePAI, ParseAllContactValues, ParseAllPAIValues, ParseFLine, ParseHdrLine (any header, with all eight
    header specific value parsers under it), ParseHeaders, ParseTokenParam for
    every flag set without POptInputEndF (with that flag every prefix is by definition the whole
-   input).  For each: every buffer, start offset, object state (so also resumed states) and chunk
-   schedule.  PARTIAL: not yet discharged for
-   ParseAllURIParams, ParseAllURIHdrs (correspondence run + resume oracle only). *)
-From Sipsp Require Import Harness Resume Ext ExtLeaf ExtCSeq ExtTok ExtNameAddr ExtNested ExtLists ExtFLine ExtHdrLine ExtHeaders ExtMsg.
+   input), ParseAllURIParams and ParseAllURIHdrs (same flag condition).  For each: every buffer, start
+   offset, object state (so also resumed states) and chunk schedule; for the two URI lists the object
+   is any list whose unused slots are clean (ul_wf / uh_wf: what Init and Reset make, and what the
+   parsers keep - part of the theorem), of any capacity incl. zero; the count of values parsed by the
+   current call (a return value, reset on entry) is not compared, it differs between a resumed and a
+   one-shot call by definition. *)
+From Sipsp Require Import Harness Resume Ext ExtLeaf ExtCSeq ExtTok ExtNameAddr ExtNested ExtLists ExtFLine ExtHdrLine ExtHeaders ExtMsg CapURI ExtURI.
 Theorem C02_every_schedule_from_one_step :
   forall (S : Type) (P : list byte -> N -> S -> res S) (obs : S -> list Z) (Inv : N -> S -> Prop),
   ExtOK P obs Inv ->
@@ -67,3 +70,29 @@ Proof. exact (fun b k s0 cuts => resume_schedule _ _ _ hdrline_ExtOK b k s0 cuts
 Theorem C02_header_block : forall b k s0 cuts, k <= nnat (length b) -> sorted_from (N.to_nat k) cuts ->
   agrees parse_headers (fun x => obs_hdrlst (hs_l x) ++ obs_opt_phvals (hs_pv x)) b cuts (chunked_trace parse_headers b cuts k s0) k s0.
 Proof. exact (fun b k s0 cuts => resume_schedule _ _ _ headers_ExtOK b k s0 cuts I). Qed.
+
+Theorem C02_all_uri_params : forall flags, testbit flags bPOptInputEnd = false ->
+  forall b k s0 cuts, ul_wf s0 -> k <= nnat (length b) -> sorted_from (N.to_nat k) cuts ->
+  agrees (parse_all_uri_params flags) obs_uparams b cuts (chunked_trace (parse_all_uri_params flags) b cuts k s0) k s0.
+Proof. exact (fun flags Hie b k s0 cuts => resume_schedule _ _ _ (uparams_ExtOK flags (ul_flags_ie flags Hie)) b k s0 cuts). Qed.
+
+Theorem C02_all_uri_hdrs : forall flags, testbit flags bPOptInputEnd = false ->
+  forall b k s0 cuts, uh_wf s0 -> k <= nnat (length b) -> sorted_from (N.to_nat k) cuts ->
+  agrees (parse_all_uri_hdrs flags) obs_uhdrs b cuts (chunked_trace (parse_all_uri_hdrs flags) b cuts k s0) k s0.
+Proof. exact (fun flags Hie b k s0 cuts => resume_schedule _ _ _ (uhdrs_ExtOK flags (uh_flags_ie flags Hie)) b k s0 cuts). Qed.
+
+(* the objects the theorems speak about exist: fresh lists of every capacity *)
+Theorem C02_fresh_uri_lists_are_clean : forall n, ul_wf (uparams_init (repeat uriparam0 n)) /\ uh_wf (uhdrs_init (repeat tokparam0 n)).
+Proof. exact (fun n => conj (ul_wf_init n) (uh_wf_init n)). Qed.
+(* a schedule that exercises the re-iteration at the same offset: "a=1;" then "a=1;b=2?x" into a list of capacity 1 *)
+Example C02_uri_params_example :
+  let f := 2 ^ bPOptTokQmTerm in let l0 := uparams_init (repeat uriparam0 1) in
+  match parse_all_uri_params f [97;61;49;59] 0 l0 with
+  | Done o EMore s => o = 4 /\ req obs_uparams (parse_all_uri_params f [97;61;49;59;98;61;50;63;120] o s)
+                                              (parse_all_uri_params f [97;61;49;59;98;61;50;63;120] 0 l0)
+                            /\ match parse_all_uri_params f [97;61;49;59;98;61;50;63;120] 0 l0 with Done 7 EOk s' => ul_n s' = 2 | _ => False end
+  | _ => False
+  end.
+Proof. vm_compute. repeat split; reflexivity || discriminate. Qed.
+Print Assumptions C02_all_uri_params.
+Print Assumptions C02_all_uri_hdrs.
